@@ -699,8 +699,8 @@ fn parse_time(s: &str, converter: &Converter) -> Result<u32, ParseTimeError> {
     let r = parse_time_with_units(s, converter);
     // if any error, try to fall back to a full float parse
     if r.is_err() {
-        let minutes = s.parse::<f64>().map(|m| m.round() as u32);
-        if let Ok(minutes) = minutes {
+        let minutes = s.parse::<f64>().ok().and_then(minutes_from_f64);
+        if let Some(minutes) = minutes {
             return Ok(minutes);
         }
     }
@@ -720,6 +720,15 @@ pub(crate) enum ParseTimeError {
     ParseFloatError(#[from] ParseFloatError),
     #[error("An empty value is not valid")]
     Empty,
+    #[error("The duration does not fit in a whole number of minutes")]
+    OutOfRange,
+}
+
+/// Rounds to whole minutes. Negative, not-a-number and too large values have
+/// no representation and are refused instead of being clamped by the cast.
+fn minutes_from_f64(total: f64) -> Option<u32> {
+    let rounded = total.round();
+    (total >= 0.0 && rounded <= u32::MAX as f64).then_some(rounded as u32)
 }
 
 fn parse_common_time_format(s: &str) -> Option<u32> {
@@ -781,7 +790,7 @@ fn parse_time_with_units(s: &str, converter: &Converter) -> Result<u32, ParseTim
         let number = number.parse::<f64>()?;
         total += to_minutes(number, unit)?;
     }
-    Ok(total.round() as u32)
+    minutes_from_f64(total).ok_or(ParseTimeError::OutOfRange)
 }
 
 fn dynamic_time_units(
